@@ -52,7 +52,9 @@ def generate(rseed, tier, idx):
     g = stream(rseed, "gen")
     e = stream(rseed, "env")
     settings = _settings(g)
-    feats = gen.draw_features(g, C08_FEATURES, g.choice((0.15, 0.3, 0.5)))
+    feats = gen.draw_features(g, [f for f in C08_FEATURES if f != "many-rules"], g.choice((0.15, 0.3, 0.5)))
+    if g.random() < 0.02:
+        feats.append("many-rules")
     ast = gen.gen_sheet(g, feats, settings, max_rules=8)
     if g.random() < 0.03:  # nothing to do at all: empty or comment-only stylesheet
         ast = {"items": [{"t": "raw", "text": "/* nothing here */"}] if g.random() < 0.5 else [], "style": "pretty"}
